@@ -512,6 +512,35 @@ func exitsReachableAvoiding(fn *ssa.Function, from ssa.Instruction, pass func(ss
 	return out
 }
 
+// retResults returns the values a Return hands back, looking through the
+// result spilling go/ssa performs in functions with defers (`*r0 = v;
+// rundefers; t = *r0; return t`).  Returns of the recover block yield nil.
+func retResults(r *ssa.Return) []ssa.Value {
+	if r.Parent().Recover == r.Block() {
+		return nil
+	}
+	out := make([]ssa.Value, len(r.Results))
+	for i, v := range r.Results {
+		out[i] = v
+		u, ok := v.(*ssa.UnOp)
+		if !ok || u.Op != token.MUL {
+			continue
+		}
+		al, ok := u.X.(*ssa.Alloc)
+		if !ok {
+			continue
+		}
+		instrs := r.Block().Instrs
+		for j := len(instrs) - 1; j >= 0; j-- {
+			if st, ok := instrs[j].(*ssa.Store); ok && st.Addr == ssa.Value(al) {
+				out[i] = st.Val
+				break
+			}
+		}
+	}
+	return out
+}
+
 // dominates: instruction a dominates instruction b (same function).
 func dominates(a, b ssa.Instruction) bool {
 	if a.Block() == b.Block() {
